@@ -569,7 +569,9 @@ class Sym:
     def _global(self, name: str, depth: int) -> Poly:
         """Module-level numeric constants are folded (e.g. SECONDS_IN_YEAR)."""
         v = self.f.module.constants.get(name)
-        if v is not None and depth < self.max_depth and all(isinstance(n, (ast.Constant, ast.BinOp, ast.UnaryOp, ast.operator, ast.unaryop)) for n in ast.walk(v)) \
+        consts = self.f.module.constants
+        if v is not None and depth < self.max_depth and all(isinstance(n, (ast.Constant, ast.BinOp, ast.UnaryOp, ast.operator, ast.unaryop, ast.expr_context)) or (isinstance(n, ast.Name) and n.id in consts and n.id != name)
+                                                            for n in ast.walk(v)) \
                 and all(isinstance(n.value, (int, float)) and not isinstance(n.value, bool) for n in ast.walk(v) if isinstance(n, ast.Constant)):
             return self.ev(v, None, depth + 1)
         return Poly.atom(name)
